@@ -141,6 +141,12 @@ func (t *Dense) Reshape(dims ...int) error {
 		return errors.Errorf(methodNYI, "Reshape", "non-contiguous views")
 	}
 
+	// a tensor that owns non-contiguous storage (a clone of a sliced view) cannot be
+	// reshaped either; refuse before the new shape is installed, not after
+	if t.viewOf == 0 && t.o.IsNotContiguous() && t.len() != t.Shape().TotalSize() {
+		return errors.Errorf(methodNYI, "Reshape", "tensors with non-contiguous storage")
+	}
+
 	if !t.old.IsZero() {
 		t.Transpose()
 	}
